@@ -163,3 +163,43 @@ package decoder
 //@   ensures err == nil && ncalls("uintDecoder.op") != old(ncalls("uintDecoder.op")) ==> cursor <= s && s < c && old(wsRun(ctx.Buf, cursor, s) && jsonUintTok(ctx.Buf, s, c))
 //@   ensures err == nil && ncalls("uintDecoder.op") != old(ncalls("uintDecoder.op")) ==> callarg("uintDecoder.op", 2) == old(decvalN(ctx.Buf[s:c], c - s))
 //@   assigns all
+
+// ---------------------------------------------------------------- type -> decoder cache (C14)
+// slot(t): the cache index of type address t. owner(d): the type a cached decoder was compiled for (ghost).
+//@ ufun owner(Int) Int
+//@ spec slot(t) := (t - typeAddr.BaseTypeAddr) >> typeAddr.AddrShift
+//@ spec onFastPath(t) := typeAddr.BaseTypeAddr <= t && t <= typeAddr.MaxTypeAddr
+// ENV-types (environment assumption): type descriptors in the cached range sit on the alignment grid
+// that AnalyzeTypeAddr inferred from the linker's type table
+//@ spec gridded(t) := (t - typeAddr.BaseTypeAddr) % pow2(typeAddr.AddrShift) == 0
+//@ spec cacheShape() := typeAddr != nil && (typeAddr.AddrShift == 0 || typeAddr.AddrShift == 5 || typeAddr.AddrShift == 6) && len(cachedDecoder) == (typeAddr.AddrRange >> typeAddr.AddrShift) + 1 && (typeAddr.AddrRange == typeAddr.MaxTypeAddr - typeAddr.BaseTypeAddr || typeAddr.BaseTypeAddr > typeAddr.MaxTypeAddr)
+// every occupied slot holds the decoder of a type that maps to that slot
+//@ spec slotsOwned() := forall i :: 0 <= i && i < len(cachedDecoder) && cachedDecoder[i] != nil ==> onFastPath(owner(dataOf(cachedDecoder[i]))) && gridded(owner(dataOf(cachedDecoder[i]))) && slot(owner(dataOf(cachedDecoder[i]))) == i
+
+//@ func initDecoder()
+//@   props C14
+//@   trusted sync.Once: the closure initDecoder$1 has completed before Do returns; it is the only writer of typeAddr and allocates an all-nil cachedDecoder of the stated length; later calls change nothing
+//@   requires typeAddr != nil ==> slotsOwned()
+//@   ensures cacheShape() && slotsOwned()
+//@   assigns global typeAddr, global cachedDecoder
+
+//@ func compileHead(typ, structTypeToDecoder) (dec, err)
+//@   props C14
+//@   trusted reflection-driven decoder compiler; assumed to return the decoder for exactly the requested type
+//@   ensures err == nil ==> dec != nil && owner(dataOf(dec)) == typ
+//@   assigns nothing
+
+//@ func compileToGetDecoderSlowPath(typeptr, typ) (dec, err)
+//@   props C14
+//@   trusted map keyed by the exact type address (map operations are opaque to the verifier)
+//@   ensures err == nil ==> dec != nil && owner(dataOf(dec)) == typeptr
+//@   assigns nothing
+
+//@ func CompileToGetDecoder(typ) (dec, err)
+//@   props C14 C06
+//@   requires typeAddr != nil ==> slotsOwned()
+// ENV-types: a type address inside the window lies on the grid AnalyzeTypeAddr inferred
+//@   postassume initDecoder: onFastPath(typ) ==> gridded(typ)
+//@   ensures err == nil ==> dec != nil && owner(dataOf(dec)) == typ
+//@   ensures slotsOwned()
+//@   assigns global typeAddr, global cachedDecoder, class T:decoder.Decoder.typ, class T:decoder.Decoder.data
